@@ -5,6 +5,7 @@ package main
 
 import (
 	"fmt"
+	"os"
 	"go/token"
 	"go/types"
 	"strings"
@@ -23,6 +24,7 @@ func (fv *FuncVer) call(st *State, ins ssa.Instruction, cc *ssa.CallCommon, res 
 		}
 		r := fv.invoke(st, ins, cc, args)
 		fv.bindResult(st, res, r)
+		fv.afterCall(st, ifaceMethodName(cc.Value.Type(), cc.Method))
 		f.ip++
 		return true
 	}
@@ -478,6 +480,9 @@ func (fv *FuncVer) havocAll(st *State, why string) {
 	st.assume(IGe(nr, st.nextRef))
 	st.nextRef = nr
 	fv.note(st, "havoc: "+why)
+	if os.Getenv("GOCV_DEBUG_HAVOC") != "" {
+		fmt.Fprintf(os.Stderr, "havoc-all in %s: %s\n", fv.shortName(), why)
+	}
 }
 
 func (fv *FuncVer) havocKeys(st *State, keys []string) {
@@ -683,8 +688,9 @@ func (fv *FuncVer) applyContract(st *State, ins ssa.Instruction, blk *Block, ful
 	// memory the callee lends to the caller: the caller must not write through it
 	for _, cl := range blk.ClausesOf("borrowed") {
 		v := post.eval(cl.Expr)
-		if v.T != nil && v.T.Sort == c.SSlice {
-			st.borrowed = append(append([]borrowedMem(nil), st.borrowed...), borrowedMem{base: Field(v.T, 0), off: Field(v.T, 1), ln: Field(v.T, 2), what: short + ": " + cl.Text})
+		if sl, ok := types.Unalias(v.Typ).Underlying().(*types.Slice); ok && v.T != nil && v.T.Sort == c.SSlice {
+			k, _ := fv.elemsKey(sl.Elem())
+			st.borrowed = append(append([]borrowedMem(nil), st.borrowed...), borrowedMem{base: Field(v.T, 0), off: Field(v.T, 1), ln: Field(v.T, 2), what: short + ": " + cl.Text, key: k})
 		}
 	}
 	// copy-out of boxed interior pointers
